@@ -12,6 +12,14 @@ CLAIMS = {
    note="Trusted: the pyvc executor and its NumPy models; havoc contracts for the identification kernels at run()'s call sites "
         "(any tables of one shape and one NaN pattern); MPC/MPD as abstract functions of the mode-shape vector (values: C18); reals for floats.",
    design="6 (C09)", technique="contract-based deductive verification: AST->VC generation (pyvc) + z3, loop invariants for symbolic loops, native replay"),
+ "C10": dict(
+   text="Deductive proof that gen.SC_apply, executed from the real source with inductive invariants for its two symbolic loops, "
+        "returns exactly the property's label function (order window, not-first-order, retained pole, non-empty previous order, "
+        "nearest previous pole by frequency, three strict relative tolerances) for every table shape, NaN pattern and tolerance triple, "
+        "and that the four run() methods hand it the filtered tables and the column window that corresponds to [ordmin, ordmax] in model orders.",
+   note="Trusted: pyvc executor and NumPy models; gen.MAC as an abstract function in [0,1] of the two vectors (value: C18); havoc contracts of "
+        "the identification kernels at run()'s call sites; step == 1 (columns = model orders) as in the property's quantifier.",
+   design="6 (C10)", technique="contract-based deductive verification: AST->VC generation (pyvc) + z3, loop invariants, native replay"),
 }
 NOT_APPLICABLE = {
  "C07": "accuracy tolerance (2.5 % / 15 %) of a floating-point FFT/peak-picking/regression pipeline: no contract over exact reals can state or discharge it (DESIGN.md section 8); its scale-invariance clause is covered under C08",
